@@ -69,7 +69,7 @@ EXPECTED_PROBES = {
     'C03': ['spike_on_chunk_bound', 'spike_at_0', 'spike_at_last', 'window_exceeds_start',
             'window_exceeds_end', 'window_longer_than_recording', 'unsigned_spikes',
             'minus_one_channel', 'multi_chunk_export', 'cbin_export_cached', 'odd_window',
-            'store_lookup_permuted', 'float_factor', 'int_factor'],
+            'store_lookup_permuted', 'float_factor', 'int_factor', 'store_query_with_minus_one'],
 }
 
 BINOPS = ['add', 'radd', 'sub', 'rsub', 'mul', 'rmul', 'truediv', 'rtruediv', 'floordiv',
@@ -330,6 +330,10 @@ def gen(rng, prop, tier):
                 # store spike ids must be distinct: the store indexes spikes by id
                 q = rng.sample(ids, rng.randint(1, min(len(ids), 8)))
                 qc = rng.sample(range(c), rng.randint(1, min(c, 4)))
+                if rng.random() < 0.3:
+                    # channels given as -1 in the query: zero columns
+                    for _ in range(rng.randint(1, 2)):
+                        qc.insert(rng.randrange(len(qc) + 1), -1)
                 ops.append({'op': 'store_lookup', 'query': q, 'chans': qc,
                             'cache': rng.random() < 0.5,
                             'ids_as': rng.choice(['list', 'int64'])})
@@ -826,10 +830,18 @@ def _execute(plan, ctx, cfg, prop):
             ctx.check(got.shape == (len(q), w, len(qc)), 'store-lookup-shape',
                       lambda: {'got': list(got.shape)})
             ctx.probe('store_lookup_permuted')
+            if -1 in op['chans']:
+                ctx.probe('store_query_with_minus_one')
             bad = None
             for a, i in enumerate(op['query']):
                 stored = set(int(x) for x in chans[i] if x != -1)
                 for b, chn in enumerate(op['chans']):
+                    if chn == -1:
+                        if np.any(np.asarray(got[a, :, b]) != 0):
+                            bad = {'query_pos': a, 'spike': sc['spikes'][i], 'channel': -1,
+                                   'why': 'a channel given as -1 must be a zero column'}
+                            break
+                        continue
                     if chn in stored:
                         ref = window_ref(A, sc['spikes'][i], w, [chn])[:, 0].astype(np.float64) \
                             * factor
